@@ -4,9 +4,10 @@ CHECKS = {
     'C17': dict(
         technique='TLA+ spec OrderedSet.tla model-checked by TLC; transition tours and simulated behaviours '
                   'replayed on xtuml.OrderedSet/QuerySet; recorded traces validated by TLC (OrderedSetTrace.tla)',
-        text='TLC visits every state of the ordered-set specification over a universe of three elements and checks '
-             'the set-semantics and order invariants; every transition of that model (thorough) or a seeded third '
-             'of them (quick), plus simulated and random histories over 5-6 elements, is executed on the real '
+        text='TLC visits every state of the ordered-set specification (two sets: the addressed one and the result of the '
+             'latest pure operator) over a universe of three elements and checks the set-semantics, order and '
+             'independence properties; a seeded share of the million transitions of that model (30 k quick, 400 k '
+             'thorough), plus simulated and random histories over 5-6 elements, is executed on the real '
              'OrderedSet and QuerySet and each recorded step is accepted or rejected by TLC. Histories are the '
              'quantifier of this property, and a bounded exhaustive model bound to the code by trace validation '
              'is the strongest check that decides them.',
